@@ -169,7 +169,7 @@ func c06Tier(tier string) (maxLen, exh, random int) {
 	if tier == "thorough" {
 		return 5, cnt(5) * 3, 2000000
 	}
-	return 3, cnt(3) * 3, 40000
+	return 3, cnt(3) * 3, 400000
 }
 
 func c06Start(kind int, r *core.Rng) (stackage.Condition, *c06Model, string) {
